@@ -26,7 +26,11 @@ type verSpelling struct {
 var c20Versions = []verSpelling{{"3", 3}, {"v3", 3}, {"4", 4}, {"v4", 4}, {"5", 5}, {"v5", 5},
 	{"65", primitive.ProtocolVersionDse1}, {"dsev1", primitive.ProtocolVersionDse1}, {"66", primitive.ProtocolVersionDse2}, {"dsev2", primitive.ProtocolVersionDse2}}
 
-var c20BadVersions = []string{"v6", "6", "2", "v2", "1", "dsev3", "67", "dse1", "vv4", "four", "v4.0", "0"}
+// anything that is not one of the ten documented spellings: near misses, and numbers that a
+// lenient or narrowing conversion would map onto a real version (leading zeros, signs, values
+// that are congruent to a version modulo 256)
+var c20BadVersions = []string{"v6", "6", "2", "v2", "1", "dsev3", "67", "dse1", "vv4", "four", "v4.0", "0",
+	"04", "+4", "065", "0x4", "259", "260", "261", "321", "322", "516", "65540", "-252", "-190", "256", "255", "64", "v65", "4.0", "3e0"}
 
 var c20Consistencies = []struct {
 	name string
